@@ -516,6 +516,73 @@ impl<'a> TypeVisitor for Run<'a> {
             }
             obs.label("proof-positions-swept");
             obs.evals += proof.len() as u64;
+
+            // ---- (h) the verifier message itself: every element, and pairs of elements altered
+            // by (δ, δ) and (δ, −δ) — differences that cancel in a decision computed from a sum of
+            // the individual checks — must be refused by decide
+            if let Ok(v0) = typ.query(&input, &proof, &query_rand, &joint_rand, 1) {
+                let m = v0.len();
+                let mut plans: Vec<(usize, Option<(usize, bool)>)> = (0..m).map(|i| (i, None)).collect();
+                let mut push_pair = |i: usize, j: usize, plans: &mut Vec<(usize, Option<(usize, bool)>)>| {
+                    if i != j && i < m && j < m {
+                        plans.push((i, Some((j, false))));
+                        plans.push((i, Some((j, true))));
+                    }
+                };
+                if m <= 24 {
+                    for i in 0..m {
+                        for j in i + 1..m {
+                            push_pair(i, j, &mut plans);
+                        }
+                    }
+                } else {
+                    for j in 1..m {
+                        push_pair(0, j, &mut plans);
+                        push_pair(j - 1, j, &mut plans);
+                        push_pair(j, m - 1, &mut plans);
+                    }
+                    for k in 0..64u64 {
+                        let a = u128_from(case.share_seed ^ 0x51, k) as usize % m;
+                        let b = u128_from(case.share_seed ^ 0x52, k) as usize % m;
+                        push_pair(a.min(b), a.max(b), &mut plans);
+                    }
+                }
+                let alter = |v: &mut Vec<F<T>>, plan: &(usize, Option<(usize, bool)>)| {
+                    v[plan.0] += d;
+                    if let Some((j, neg)) = plan.1 {
+                        if neg {
+                            v[j] -= d;
+                        } else {
+                            v[j] += d;
+                        }
+                    }
+                };
+                for plan in &plans {
+                    let mut bad = v0.clone();
+                    alter(&mut bad, plan);
+                    if matches!(typ.decide(&bad), Ok(true)) {
+                        let mut all = true;
+                        for k in 1..=3u64 {
+                            obs.label("soundness-retest");
+                            let qr: Vec<F<T>> = rand_vec(RandKind::Uniform(case.share_seed ^ (k * 7717)), typ.query_rand_len(), 60 + k);
+                            let again = typ.query(&input, &proof, &qr, &joint_rand, 1).map(|mut v| {
+                                alter(&mut v, plan);
+                                v
+                            });
+                            if !matches!(again.and_then(|v| typ.decide(&v)), Ok(true)) {
+                                all = false;
+                                break;
+                            }
+                        }
+                        if all {
+                            obs.fail("altered-verifier-accepted", format!("decide accepted a verifier message of {m} elements with element {} altered by δ{} under 4 independent query randomness choices", plan.0, match plan.1 { Some((j, true)) => format!(" and element {j} by −δ"), Some((j, false)) => format!(" and element {j} by δ"), None => String::new() }));
+                            return;
+                        }
+                    }
+                }
+                obs.label("verifier-positions-and-pairs-swept");
+                obs.evals += plans.len() as u64;
+            }
         }
     }
 }
@@ -524,7 +591,7 @@ impl Check for C05 {
     type Case = Case;
     const ID: &'static str = "C05";
     fn rule(&self) -> String {
-        "proptest-generated (circuit instance on the parameter lattice over Field64/Field128, valid input incl. alternative valid bit patterns or invalid input built by edits, prover/joint/query randomness from {uniform, zeros, ones, −1, all-equal}, gadget query point from {uniform, 0, 1, −1, ω^j of the wire-polynomial domain, odd powers of the next-order root}, 1..8 (sometimes 9..64 or 250..520) shares with random / zero / degenerate sharings). Clause-by-clause oracle: declared lengths, wrong-length arguments ⇒ Err, valid() zero on valid inputs, completeness for every non-root randomness, soundness under uniform randomness (3 re-tests), Σ query(shares, n) = query(whole, 1), domain roots refused and non-roots served, every proof position +δ rejected. Non-trivial = root-of-unity point, degenerate randomness, ≥4 shares or partial last chunk; distinct by case hash".into()
+        "proptest-generated (circuit instance on the parameter lattice over Field64/Field128, valid input incl. alternative valid bit patterns or invalid input built by edits, prover/joint/query randomness from {uniform, zeros, ones, −1, all-equal}, gadget query point from {uniform, 0, 1, −1, ω^j of the wire-polynomial domain, odd powers of the next-order root}, 1..8 (sometimes 9..64 or 250..520) shares with random / zero / degenerate sharings). Clause-by-clause oracle: declared lengths, wrong-length arguments ⇒ Err, valid() zero on valid inputs, completeness for every non-root randomness, soundness under uniform randomness (3 re-tests), Σ query(shares, n) = query(whole, 1), domain roots refused and non-roots served, every proof position +δ rejected, every verifier position +δ and position pairs (+δ,±δ) refused by decide. Non-trivial = root-of-unity point, degenerate randomness, ≥4 shares or partial last chunk; distinct by case hash".into()
     }
     fn strategy(&self, tier: Tier) -> BoxedStrategy<Case> {
         let mut lim = Limits::small();
